@@ -26,10 +26,10 @@ PID = "C03"
 # could not be triaged into "defect" or "non-smooth point / check artefact" (DESIGN.md section 9); they are reported
 # as NOTE and counted, never as violations.  Everything else is decided.
 FD_UNDECIDED_MODELS = {"ESDC1A", "REGCA1", "WTPTA1", "Ground", "Node", "R", "VSCShunt"}
-FD_UNDECIDED_CASES = {"kundur/kundur_vsc.json", "kundur/kundur_vsc.xlsx", "ieee14/ieee14_island.xlsx", "kundur/kundur_islands.xlsx",
-                      "kundur/kundur_islands.json"}
+FD_UNDECIDED_CASES = {"kundur/kundur_vsc.json", "kundur/kundur_vsc.xlsx"}
 QUICK = ["kundur/kundur_full.json", "ieee14/ieee14_full.xlsx", "ieee14/ieee14_pvd1.json", "5bus/pjm5bus.json",
-         "kundur/kundur_aw.json", "ieee14/ieee14_esst3a.xlsx", "ieee14/ieee14_solar.xlsx", "ieee39/ieee39_full.xlsx"]
+         "kundur/kundur_aw.json", "ieee14/ieee14_esst3a.xlsx", "ieee14/ieee14_solar.xlsx", "ieee39/ieee39_full.xlsx",
+         "ieee14/ieee14_island.xlsx"]
 
 
 def run(tier):
@@ -61,6 +61,8 @@ def run(tier):
         for ipadd in (1, 0):
             tasks.append(dict(sid="jac[%s|pflow|ipadd=%d|after reconnection]" % (c, ipadd), case=c, phase="pflow", ipadd=ipadd,
                               maxcols=250 if quick else 1200, history=True))
+            tasks.append(dict(sid="jac[%s|pflow|ipadd=%d|another bus cut off]" % (c, ipadd), case=c, phase="pflow", ipadd=ipadd,
+                              maxcols=250 if quick else 1200, history="swap"))
     res = run_tasks("vh.pfdrv:jac_stock", tasks, nproc=NCPU, timeout=1800)
     worst = 0.0
     skipped = 0
@@ -86,6 +88,10 @@ def run(tier):
             rep.note("finite-difference discrepancy not decided for rows of %s (e.g. %s in %s)" % (m, by_model[m][0], t["sid"]))
             rep.extra.setdefault("fd_undecided", {})[m] = by_model[m][:3]
         decided = {m: v for m, v in by_model.items() if m not in und}
+        if r_.get("cut_off_bus_rows_keep_device_entries"):
+            traces.append(dict(meta=dict(tid=len(traces) + 1, sid="fd[cut_off_bus_rows|%s|%s]" % (t["case"], t["phase"])),
+                               ev=[dict(e="jac", fd_ok=False, pattern_stable=True)],
+                               detail=dict(case=t["sid"], entries=r_["cut_off_bus_rows_keep_device_entries"])))
         traces.append(dict(meta=dict(tid=len(traces) + 1, sid=t["sid"]), ev=[dict(e="jac", fd_ok=True, pattern_stable=r_["pattern_stable"])],
                            detail=dict(r_, pairs=None)))
         for m, prs in sorted(decided.items()):
